@@ -31,6 +31,18 @@ CommonTypes ==
 
 MC_Cases == CommonRequests \cup CommonResponses \cup CommonTypes
 
+\* Strictness: a GetInfo message carrying a key that does not exist in configuration F must be
+\* refused under F (the integer-keyed maps are strict), and a key that exists must carry its type.
+\* A member that slipped out of (or into) a feature gate shows up here as an accepted / refused key.
+GiRequiredPairs == << <<CU(1), CArr(<<CText(N_FIDO_2_0)>>)>>, <<CU(3), CBytes(Pattern(50, 16))>> >>
+StrictCases ==
+    {TypeDecCase("GetInfoResp", Enc(CMap(SortPairs(Append(GiRequiredPairs, <<CU(k), v>>)))), "strict-key") :
+        k \in (2..30) \ {3}, v \in {CU(4), CBool(TRUE), CArr(<< >>), CMap(<< >>)}}
+    \cup {TypeDecCase("CpResp", Enc(CMap(<< <<CU(k), v>> >>)), "strict-key") : k \in 0..8, v \in {CU(4), CBool(TRUE), CBytes(<<1>>)}}
+    \cup {TypeDecCase("LbResp", Enc(CMap(<< <<CU(k), CBytes(<< >>)>> >>)), "strict-key") : k \in 0..3}
+    \cup {RawCase(<<c>> \o Enc(CMap(SortPairs(Append(ToTree(T_Indexed(CommandTable[c].schema), ReqMin(c), F, TRUE).m, <<CU(k), v>>)))), "strict-key-request") :
+             c \in {1, 2, 6, 10, 12}, k \in {0, 5, 7, 8, 9, 10, 11, 12, 13}, v \in {CU(1), CBool(TRUE)}}
+
 (***************************************************************************)
 (* C16 on the model                                                        *)
 (***************************************************************************)
